@@ -117,6 +117,19 @@ pub fn decoders() -> Vec<Dec> {
             let o: Origin = (&u).into();
             let _ = v.assert_domain(&o, Some(s));
         }) },
+        Dec { name: "assert_domain(host=rp-pair)", kind: Kind::Text, run: |b| text(b, |s| {
+            // "<host>=<rp id>": two independent strings (the text alphabet contains '=')
+            let (host, rp) = s.split_once('=').unwrap_or((s, ""));
+            let v = RpIdVerifier::new(public_suffix::DEFAULT_PROVIDER).allows_insecure_localhost(true);
+            if let Ok(l) = UnverifiedAssetLink::new("pkg", super::common::FP, host, url::Url::parse("https://x.example/.well-known/assetlinks.json").unwrap()) {
+                let o = Origin::Android(l);
+                let _ = v.assert_domain(&o, Some(rp));
+            }
+            if let Ok(u) = url::Url::parse(&format!("https://{host}")) {
+                let o: Origin = (&u).into();
+                let _ = v.assert_domain(&o, Some(rp));
+            }
+        }) },
         Dec { name: "public_suffix", kind: Kind::Text, run: |b| text(b, |s| {
             let _ = public_suffix::DEFAULT_PROVIDER.public_suffix(s);
             let _ = public_suffix::DEFAULT_PROVIDER.effective_tld_plus_one(s);
@@ -223,6 +236,7 @@ pub fn seeds_for(name: &str) -> Vec<Vec<u8>> {
         "Bytes(json)" => vec![b"[1,2,255]".to_vec(), b"\"AQID-_8\"".to_vec(), b"\"AQID+/8=\"".to_vec()],
         "Bytes::try_from(&str)" | "encoding::try_from_base64url" => vec![b"AQID-_8".to_vec(), b"AQID+/8=".to_vec()],
         "valid_fingerprint" => vec![super::common::FP.as_bytes().to_vec()],
+        "assert_domain(host=rp-pair)" => vec!["www.bücher.example=bücher.example".as_bytes().to_vec(), b"a.b.xn--55qx5d.cn=xn--55qx5d.cn".to_vec(), "é.com=x.com".as_bytes().to_vec()],
         "UnverifiedAssetLink::new+assert_domain" | "RpIdVerifier(web)" | "public_suffix" => vec![b"www.example.co.uk".to_vec(), b"a.b.xn--55qx5d.cn".to_vec(), b"x.www.ck".to_vec()],
         _ => vec![],
     }
@@ -495,9 +509,13 @@ fn site_file(p: &str) -> String {
     // "msg @ path/file.rs:123" -> "crate-dir/file.rs"
     let site = par::panic_site(p);
     let path = site.rsplit_once(':').map(|x| x.0).unwrap_or(&site).to_string();
-    let parts: Vec<&str> = path.split('/').collect();
+    let parts: Vec<&str> = path.split('/').filter(|p| !p.is_empty()).collect();
     let file = parts.last().copied().unwrap_or("?");
-    let krate = parts.first().copied().unwrap_or("?");
+    // std paths look like /rustc/<hash>/library/core/src/str/mod.rs
+    let krate = match parts.iter().position(|p| *p == "library") {
+        Some(i) => parts.get(i + 1).copied().unwrap_or("std"),
+        None => parts.first().copied().unwrap_or("?"),
+    };
     format!("{krate}:{file}")
 }
 
@@ -714,7 +732,7 @@ pub fn run(ctx: &Ctx) -> Result<Run, String> {
     let ndec = sp.decs.len();
     let mut run = Run::from_stats(
         "exploration",
-        "for each of 26 public decoders (CTAP2 CBOR messages, authenticator data, WebAuthn JSON, base64, U2F raw messages, COSE-key converter, fingerprints, asset links, RP-ID verification, public-suffix lookups): (1) all byte strings up to length 2 (3 thorough) / all strings over an 8-symbol alphabet up to length 5 (7 thorough); (2) every single deviation of valid seed encodings of every message type: truncation at every position, every byte value at every position (CBOR/binary; a 17-symbol menu for JSON/text), and splices at every position of CBOR heads of every major type with declared lengths 2^8..2^64-1 / indefinite, 300- and 100000-deep nesting, JSON structure/number/escape fragments, long and dotted labels (thorough: all pairs of byte-level deviations on short seeds); run in isolated worker processes with a counting allocator (single request > 16 MiB or > 256 MiB in total = out of proportion; > 1 GiB refused), 8 MiB stack, per-case watchdog; (3) CTAPHID: BFS over packet sequences on the real ChannelHandler (alphabet: 2 channels x 8 init heads + 4 continuation sequence numbers x 13 packet sizes), deduplicated on the hook snapshot. Non-trivial = distinct non-empty input",
+        "for each of 27 public decoders (CTAP2 CBOR messages, authenticator data, WebAuthn JSON, base64, U2F raw messages, COSE-key converter, fingerprints, asset links, RP-ID verification, public-suffix lookups): (1) all byte strings up to length 2 (3 thorough) / all strings over an 8-symbol alphabet up to length 5 (7 thorough); (2) every single deviation of valid seed encodings of every message type: truncation at every position, every byte value at every position (CBOR/binary; a 17-symbol menu for JSON/text), and splices at every position of CBOR heads of every major type with declared lengths 2^8..2^64-1 / indefinite, 300- and 100000-deep nesting, JSON structure/number/escape fragments, long and dotted labels (thorough: all pairs of byte-level deviations on short seeds); run in isolated worker processes with a counting allocator (single request > 16 MiB or > 256 MiB in total = out of proportion; > 1 GiB refused), 8 MiB stack, per-case watchdog; (3) CTAPHID: BFS over packet sequences on the real ChannelHandler (alphabet: 2 channels x 8 init heads + 4 continuation sequence numbers x 13 packet sizes), deduplicated on the hook snapshot. Non-trivial = distinct non-empty input",
         true,
         stats,
     );
